@@ -376,7 +376,7 @@ func (w *world) coreSweep(n int, para bool) {
 				active = 1
 			}
 			res := posOf(types.CheckTxBlockedAccount(w.cfg, h, sp.tx))
-			out.Op(fmt.Sprintf("core %d %s", active, v), res)
+			out.Op(fmt.Sprintf("core %d:%d %s", h, forkHeight, v), res)
 			if active == 1 && sp.truth && res == "pass" {
 				out.Pred("C31|CheckTxBlockedAccount|blacklisted-position-not-detected", fmt.Sprintf("%s height=%d set=%q tx=%s", sp.where, h, w.setTxt, v))
 			}
@@ -504,7 +504,7 @@ func (e *nodeEnv) execSweep(n int) {
 			var base, got []string
 			e.withEmpty(func() { base = e.execTypes(h, []*types.Transaction{sp.tx}) })
 			got = e.execTypes(h, []*types.Transaction{sp.tx})
-			out.Op(fmt.Sprintf("exec %d s %s %s", active, txv(sp.tx), base[0]), strings.Join(got, ","))
+			out.Op(fmt.Sprintf("exec %d:%d s %s %s", h, forkHeight, txv(sp.tx), base[0]), strings.Join(got, ","))
 			if active == 1 && sp.truth && got[0] != "err" {
 				out.Pred("C31|procExecTxList|single|blacklisted-tx-executed", fmt.Sprintf("%s height=%d set=%q receipt=%s", sp.where, h, w.setTxt, got[0]))
 			}
@@ -515,7 +515,7 @@ func (e *nodeEnv) execSweep(n int) {
 			if len(added) == 0 {
 				res = "skip"
 			}
-			out.Op(fmt.Sprintf("prod %d %s", active, txv(sp.tx)), res)
+			out.Op(fmt.Sprintf("prod %d:%d %s", h, forkHeight, txv(sp.tx)), res)
 			if active == 1 && sp.truth && res == "take" {
 				out.Pred("C31|AddTxsToBlock|single|blacklisted-tx-packed", fmt.Sprintf("%s height=%d", sp.where, h))
 			}
@@ -557,7 +557,7 @@ func (e *nodeEnv) execSweep(n int) {
 				parts = append(parts, txv(t)+";"+base[j])
 				vs = append(vs, txv(t))
 			}
-			out.Op(fmt.Sprintf("exec %d g %s", active, strings.Join(parts, "|")), strings.Join(got, ","))
+			out.Op(fmt.Sprintf("exec %d:%d g %s", h, forkHeight, strings.Join(parts, "|")), strings.Join(got, ","))
 			if active == 1 && truth {
 				for j := range got {
 					if got[j] != "err" {
@@ -572,7 +572,7 @@ func (e *nodeEnv) execSweep(n int) {
 			if len(added) == 0 {
 				res = "skip"
 			}
-			out.Op(fmt.Sprintf("prod %d %s", active, strings.Join(vs, "|")), res)
+			out.Op(fmt.Sprintf("prod %d:%d %s", h, forkHeight, strings.Join(vs, "|")), res)
 			if active == 1 && truth && res == "take" {
 				out.Pred("C31|AddTxsToBlock|group|blacklisted-tx-packed", fmt.Sprintf("height=%d", h))
 			}
@@ -588,13 +588,34 @@ func (e *nodeEnv) execSweep(n int) {
 				truth = true
 			}
 			outer := e.proxyTx(sk, 0, inner)
+			outerDirty := false
+			if w.r.Chance(1, 4) { // the outer transaction's own EVM contract-address field names a victim (never executed as such)
+				var a types.EVMContractAction4Chain33
+				if types.Decode(outer.Payload, &a) == nil {
+					a.ContractAddr = spell(w.r, w.victims[2], w.r.Intn(nForms))
+					outer.Payload = types.Encode(&a)
+					outerDirty = true
+					out.Stat("exec_proxied_outer_contract_blacklisted", 1)
+				}
+			}
 			// what the executor executes: the inner transaction with the outer signature
 			eff := inner.Clone()
 			eff.Signature = outer.Signature
 			var base, got []string
 			e.withEmpty(func() { base = e.execTypes(h, []*types.Transaction{outer}) })
 			got = e.execTypes(h, []*types.Transaction{outer})
-			out.Op(fmt.Sprintf("exec %d p %s %s %s", active, txv(outer), txv(eff), base[0]), strings.Join(got, ","))
+			out.Op(fmt.Sprintf("exec %d:%d p %s %s %s", h, forkHeight, txv(outer), txv(eff), base[0]), strings.Join(got, ","))
+			if outerDirty { // declared: the executor does not look at the outer transaction; the producer does
+				blk := &types.Block{Height: h}
+				res := "take"
+				if len(e.bc.AddTxsToBlock(blk, []*types.Transaction{outer})) == 0 {
+					res = "skip"
+				}
+				out.Op(fmt.Sprintf("prod %d:%d %s", h, forkHeight, txv(outer)), res)
+				if active == 1 && res == "take" {
+					out.Pred("C31|AddTxsToBlock|proxied-outer|blacklisted-tx-packed", fmt.Sprintf("height=%d", h))
+				}
+			}
 			if active == 1 && truth && got[0] != "err" {
 				out.Pred("C31|procExecTxList|proxied|blacklisted-tx-executed", fmt.Sprintf("%s height=%d receipt=%s", sp.where, h, got[0]))
 			}
@@ -802,6 +823,20 @@ func (e *nodeEnv) poolSweep(n int) {
 		if base == "accepted" && kind != 2 {
 			_ = poolB.GetAPI().RemoveTxsByHashList(&types.TxHashList{Hashes: [][]byte{send.Hash()}})
 		}
+		if kind == 2 { // delayed proxy-exec transaction: eventAddDelayTx looks at the submitted transaction only (declared)
+			rep, err := e.mockC.GetAPI().SendDelayTx(&types.DelayTx{Tx: send, EndDelayTime: time.Now().Unix() + 1000000}, true)
+			res := "cached"
+			if err != nil || rep == nil || !rep.IsOk {
+				res = "blocked"
+				if err == nil || !strings.Contains(err.Error(), "ErrBlockedAccount") {
+					res = "other"
+				}
+			}
+			if res != "other" {
+				out.Op("delay "+strings.SplitN(vs[0], ";", 2)[0], res)
+			}
+			out.Stat("delay_proxied_"+res, 1)
+		}
 		// delayed submission of the same (single) transaction
 		if kind == 0 {
 			rep, err := e.mock.GetAPI().SendDelayTx(&types.DelayTx{Tx: send, EndDelayTime: time.Now().Unix() + 1000000}, true)
@@ -996,6 +1031,133 @@ func nodeMode(r *gen.Rand) {
 	types.SetBlockedAccountsForTest(nil)
 }
 
+// paraNode: a para-chain testnode (title user.p.test.): executor receipts and the pool for transactions of this para
+// chain and of other chains under different rpc.parachain.forwardExecs settings.
+func paraNode(r *gen.Rand) {
+	s := strings.Replace(types.GetDefaultCfgstring(), "Title=\"local\"", "Title=\"user.p.test.\"", 1)
+	cfg := types.NewChain33Config(s)
+	cfg.GetModuleConfig().Consensus.Minerstart = false
+	cfg.GetModuleConfig().Address.EnableHeight = map[string]int64{"eth": 0}
+	cfg.SetFork(types.ForkAccountBlacklist, forkHeight)
+	if d := os.Getenv("VERIF_TMP"); d != "" {
+		os.Setenv("TMPDIR", d)
+	}
+	mock := testnode.NewWithConfig(cfg, nil)
+	w := newWorld(r, cfg)
+	g := mock.GetLastBlock()
+	gk := mock.GetGenesisKey()
+	fwdSets := [][]string{nil, {"coins"}, {"all"}, {"none"}, {"paracross"}}
+	n := gen.Scale(120, 3000)
+	for i := 0; i < n; i++ {
+		if i%20 == 0 {
+			w.configure(false)
+		}
+		cfg.GetModuleConfig().RPC.ParaChain.ForwardExecs = fwdSets[r.Intn(len(fwdSets))]
+		raw, v := w.victims[2], true
+		if r.Chance(2, 5) {
+			raw, v = w.others[r.Intn(len(w.others))], false
+		}
+		form := r.Intn(nForms)
+		to := spell(r, raw, form)
+		ex := []string{"user.p.test.coins", "user.p.test.coins", "user.p.test.none", "coins", "user.p.other.coins"}[r.Intn(5)]
+		tx := &types.Transaction{Execer: []byte(ex), Payload: coinsPayload(int64(1+r.Intn(1000)), to), To: address.ExecAddress(ex), Fee: 1000000, Nonce: int64(r.U64() >> 1), ChainID: cfg.GetChainID()}
+		tx.Sign(types.SECP256K1, gk)
+		truth := v && strings.HasSuffix(ex, "coins") // the payload recipient is the real recipient (para configuration) of a coins action
+		fwd := types.IsForward2MainChainTx(cfg, tx)
+		h := []int64{forkHeight - 1, forkHeight, forkHeight + 3}[r.Intn(3)]
+		exec := func() string {
+			b := &types.Block{Height: h, BlockTime: g.BlockTime + h, Txs: []*types.Transaction{tx}, ParentHash: g.Hash(cfg), MainHeight: h}
+			return gen.Guard(func() string {
+				rs, err := util.ExecTx(mock.GetClient(), g.StateHash, b)
+				if err != nil || len(rs.Receipts) != 1 {
+					return "error"
+				}
+				return tyName(rs.Receipts[0].Ty)
+			})
+		}
+		restore := types.SetBlockedAccountsForTest(nil)
+		base := exec()
+		restore()
+		got := exec()
+		if base == "error" || base == "panic" || got == "error" || got == "panic" {
+			out.Stat("para_exec_"+base+"_"+got, 1)
+			continue
+		}
+		kind := "s"
+		if fwd {
+			kind = "f"
+		}
+		out.Op(fmt.Sprintf("exec %d:%d %s %s %s", h, forkHeight, kind, txv(tx), base), got)
+		out.Stat(fmt.Sprintf("para_exec_forwarded_%v_%s", fwd, got), 1)
+		if h >= forkHeight && truth && got != "err" {
+			sig := "C31|procExecTxList|para-single|blacklisted-tx-executed"
+			if fwd {
+				sig = "C31|executor.checkTx|para-forwarded-tx|blacklisted-tx-executed"
+			}
+			if fwd && !strings.HasPrefix(ex, "user.p.test.") {
+				// a transaction of another chain: never a single transaction of a para block (blocks are filtered by title; as
+				// a group member it goes through checkTxGroup, which has no bypass) - declared, not reported
+				out.Stat("para_exec_other_chain_tx_touching_not_err", 1)
+			} else {
+				out.Pred(sig, fmt.Sprintf("execer=%s forwardExecs=%v recipient=%s height=%d receipt=%s", ex, cfg.GetModuleConfig().RPC.ParaChain.ForwardExecs, to, h, got))
+			}
+		}
+		// the para node's pool (EventTx straight to the mempool; the client API would forward the transaction to the main chain)
+		send := func() (string, string) {
+			cli := mock.GetClient()
+			msg := cli.NewMessage("mempool", types.EventTx, tx)
+			if err := cli.Send(msg, true); err != nil {
+				return "other", err.Error()
+			}
+			resp, err := cli.WaitTimeout(msg, 30*time.Second)
+			if err != nil {
+				return "other", err.Error()
+			}
+			if rep, ok := resp.GetData().(*types.Reply); ok {
+				return poolRes(rep, nil)
+			}
+			if e, ok := resp.GetData().(error); ok {
+				return poolRes(nil, e)
+			}
+			return "other", "?"
+		}
+		restore = types.SetBlockedAccountsForTest(nil)
+		pbase, pmsg := send()
+		if pbase == "accepted" {
+			_ = mock.GetAPI().RemoveTxsByHashList(&types.TxHashList{Hashes: [][]byte{tx.Hash()}})
+		}
+		restore()
+		pgot, _ := send()
+		if pgot == "accepted" {
+			_ = mock.GetAPI().RemoveTxsByHashList(&types.TxHashList{Hashes: [][]byte{tx.Hash()}})
+		}
+		reach := 1
+		if pbase == "other" && early(pmsg) && !strings.Contains(pmsg, "ErrInvalidAddress") {
+			reach = 0
+		}
+		ok := "1"
+		if address.CheckAddress(tx.To, 1) != nil {
+			ok = "0"
+		}
+		f := 0
+		if fwd {
+			f = 1
+		}
+		out.Op(fmt.Sprintf("poolp %d %d %s %s;%s;none", reach, f, pbase, txv(tx), ok), pgot)
+		out.Stat(fmt.Sprintf("para_pool_forwarded_%v_%s", fwd, pgot), 1)
+		if truth && pgot == "accepted" {
+			if fwd { // declared: meant for the main chain, whose pool applies the rule; para blocks are not built from this pool
+				out.Stat("para_pool_forwarded_touching_accepted", 1)
+			} else {
+				out.Pred("C31|mempool.checkTx|para-single|blacklisted-tx-accepted", fmt.Sprintf("execer=%s recipient=%s", ex, to))
+			}
+		}
+	}
+	types.SetBlockedAccountsForTest(nil)
+	out.Flush()
+	os.Exit(0) // the para executor holds a main-chain grpc client; do not wait for its shutdown
+}
+
 func main() {
 	defer out.Flush()
 	mode := os.Getenv("VERIF_C31_MODE")
@@ -1003,6 +1165,8 @@ func main() {
 	switch mode {
 	case "node":
 		nodeMode(r)
+	case "paranode":
+		paraNode(r)
 	case "para":
 		s := strings.Replace(types.GetDefaultCfgstring(), "Title=\"local\"", "Title=\"user.p.test.\"", 1)
 		cfg := types.NewChain33Config(s)
